@@ -36,6 +36,9 @@ Definition str_kind (c : text) : ckind := if has_quote c then CkWStr else CkStr.
 Definition lpt := tkk KLeftParen [40%N].
 Definition rpt := tkk KRightParen [41%N].
 Definition comma_t := tkk KComma [44%N].
+Definition dot_t := tkk KPeriod [46%N].
+Definition lb_t := tkk KLeftBracket [91%N].
+Definition rb_t := tkk KRightBracket [93%N].
 Definition semi_t := tkk KSemicolon [59%N].
 Definition assign_t := tkk KAssignment [58%N; 61%N].
 Definition arrow_t := tkk KRightArrow [61%N; 62%N].
@@ -58,6 +61,8 @@ Definition un_tok (o : unop) : token := match o with UNeg => minus_t | UNot => n
 Notation rsx := (StExprProofs.sp token).
 Notation rspar := (StExprProofs.spar token).
 Notation rspars := (StExprProofs.spars token).
+Notation rssels := (StExprProofs.ssels token).
+Notation rsidx := (StExprProofs.sidx token).
 Notation rss := (StStmtProofs.ss token).
 Notation rsl := (StStmtProofs.sl token).
 
@@ -72,12 +77,33 @@ Definition leaf_sp (l : sleaf) : rsx :=
   | LfBool b => SBool token bool_t hash_t (if b then true_t else false_t) b
   | LfStr c => SConst token (str_tok c) (str_kind c)
   | LfName n => SName token (id_tok n) ws1
-  | LfVar n => SName token (id_tok n) ws1
   end.
 
 Fixpoint sp_of (e : sexpr) : rsx :=
+  (* the selectors of a variable:  .field  without blanks,  [ e1 , e2 ]  with blanks *)
+  let sels := fix sels (l : list (sel sexpr)) : rssels :=
+    match l with
+    | [] => SsEnd token
+    | SField f :: l' => SsField token [] dot_t [] (id_tok f) (sels l')
+    | SIndex es :: l' =>
+        match es with
+        | [] => sels l'                       (* no text has an empty subscript list *)
+        | x :: es' =>
+            let sx := sp_of x in
+            let '(more, w3) :=
+              (fix idx (prev : rsx) (l2 : list sexpr) : rsidx * list token :=
+                 match l2 with
+                 | [] => (SiEnd token, gap prev)
+                 | y :: l3 => let sy := sp_of y in
+                              let '(m, w) := idx sy l3 in
+                              (SiMore token (gap prev) comma_t ws1 sy m, w)
+                 end) sx es' in
+            SsIndex token ws1 lb_t ws1 sx more w3 rb_t (sels l')
+        end
+    end in
   match e with
   | XAtom l => leaf_sp l
+  | XVar n ss => SVar token (id_tok n) (sels ss)
   | XBin o l r =>
       let sl := sp_of l in let sr := sp_of r in
       SParen token lpt ws1 (SBin token (op_tok o) o sl (gap sl) ws1 sr) (gap sr) rpt
@@ -95,7 +121,7 @@ Fixpoint sp_of (e : sexpr) : rsx :=
             match q with
             | PPos e => SPPos token (sp_of e)
             | PNamed n e => SPNamed token (id_tok n) ws1 assign_t ws1 (sp_of e)
-            | POut neg n v => SPOut token (if neg then Some (not_t, ws1) else None) (id_tok n) ws1 arrow_t ws1 (id_tok v)
+            | POut neg n v vs => SPOut token (if neg then Some (not_t, ws1) else None) (id_tok n) ws1 arrow_t ws1 (id_tok v) (sels vs)
             end in
           let p0 := par p in
           let fix go (prev : rspar) (l : list (param sexpr)) : rspars * list token :=
@@ -110,12 +136,32 @@ Fixpoint sp_of (e : sexpr) : rsx :=
       end
   end.
 
-(* parameters of a function-block call statement: the same layout *)
+(* the same layouts as top-level functions (for statements) *)
+Fixpoint idx_of (prev : rsx) (l2 : list sexpr) : rsidx * list token :=
+  match l2 with
+  | [] => (SiEnd token, gap prev)
+  | y :: l3 => let sy := sp_of y in
+               let '(m, w) := idx_of sy l3 in
+               (SiMore token (gap prev) comma_t ws1 sy m, w)
+  end.
+Fixpoint sels_of (l : list (sel sexpr)) : rssels :=
+  match l with
+  | [] => SsEnd token
+  | SField f :: l' => SsField token [] dot_t [] (id_tok f) (sels_of l')
+  | SIndex es :: l' =>
+      match es with
+      | [] => sels_of l'
+      | x :: es' =>
+          let sx := sp_of x in
+          let '(more, w3) := idx_of sx es' in
+          SsIndex token ws1 lb_t ws1 sx more w3 rb_t (sels_of l')
+      end
+  end.
 Definition par_of (q : param sexpr) : rspar :=
   match q with
   | PPos e => SPPos token (sp_of e)
   | PNamed n e => SPNamed token (id_tok n) ws1 assign_t ws1 (sp_of e)
-  | POut neg n v => SPOut token (if neg then Some (not_t, ws1) else None) (id_tok n) ws1 arrow_t ws1 (id_tok v)
+  | POut neg n v vs => SPOut token (if neg then Some (not_t, ws1) else None) (id_tok n) ws1 arrow_t ws1 (id_tok v) (sels_of vs)
   end.
 Fixpoint pars_of (prev : rspar) (l : list (param sexpr)) : rspars * list token :=
   match l with
@@ -161,7 +207,7 @@ Fixpoint last_gap (l : list (sexpr * list stmt)) : list token :=
 (* statements *)
 Fixpoint ss_of (s : stmt) : rss :=
   match s with
-  | TAssign v e => SsAssign token (id_tok v) ws1 assign_t ws1 (sp_of e)
+  | TAssign v vs e => SsAssign token (id_tok v) (sels_of vs) ws1 assign_t ws1 (sp_of e)
   | TCall f [] => SsCall0 token (id_tok f) ws1 lpt ws1 rpt
   | TCall f (p :: r) => let p0 := par_of p in let '(rest, w3) := pars_of p0 r in
                         SsCallN token (id_tok f) ws1 lpt ws1 p0 rest w3 rpt
